@@ -504,3 +504,17 @@ import warnings as _warnings
 @model(_warnings.warn, "warnings.warn (assumed not to raise)", always=True)
 def m_warn(ip, args, kw):
     return None
+
+
+# ---------------------------------------------------------------------------- symbolic sequences (seq.py)
+from . import seq as _seq
+
+
+@model(np.insert, "np.insert on a symbolic sequence")
+def m_np_insert(ip, args, kw):
+    return _seq.np_insert(ip, args, kw)
+
+
+@model(np.delete, "np.delete on a symbolic sequence")
+def m_np_delete(ip, args, kw):
+    return _seq.np_delete(ip, args, kw)
